@@ -47,6 +47,8 @@ def gen_plan(rng, index, tier):
         # square assemblies on a Cartesian grid (Cartesian pin lattices when there are pins)
         bp.update({"geom": "cartesian", "symmetry": rng.choice(["full", "quarter reflective through center assembly"])})
     cfg = {"reactor": "gen", "blueprint": bp, "settings": {"nCycles": 1, "burnSteps": 1}, "actors": [], "ngeneric": rng.randint(4, 9), "rejected": rng.random() < 0.15}
+    if rng.random() < 0.3:
+        cfg["coreCopy"] = rng.choice(["deepcopy", "pickle", "pickle-reactor"])
     steps = []
     cfg["settings"]["trackAssems"] = rng.random() < 0.7  # (without a pool system in the blueprint: the default pool)
     kinds = ["c_remove", "g_add", "g_add", "g_insert", "g_remove", "g_removeAll", "g_setChildren", "a_remove", "a_add", "a_insert", "a_reorder", "a_sort", "a_removeAll", "a_setChildren", "b_remove", "b_add", "b_replace", "copy", "pickle", "detach_copy"]
@@ -208,6 +210,14 @@ class Universe:
                     self.fail("C01.traversal", f"after step {k} ({st['op']}): {name} on {o} returned {[str(x) for x in got][:8]} (n={len(got)}), a naive walk gives {[str(x) for x in want][:8]} (n={len(want)})", query=name.split("(")[0], op=st["op"])
 
             cmp("getChildren()", o.getChildren(), list(o))
+            # what a query returns is the caller's: reordering or emptying it is not an edit of the model
+            mine = o.getChildren()
+            listed = list(o)
+            mine.reverse()
+            mine.append(None)
+            del mine[: len(mine) // 2]
+            if [id(x) for x in list(o)] != [id(x) for x in listed]:
+                self.fail("C01.traversal", f"after step {k} ({st['op']}): the list returned by getChildren() on {o} was reordered and cut by its caller, and the children of {o} changed with it", query="getChildren-aliased", op=st["op"])
             cmp("iterChildren()", list(o.iterChildren()), list(o))
             deep = self.walk_deep(o)
             cmp("getChildren(deep=True)", o.getChildren(deep=True), deep)
@@ -634,6 +644,13 @@ def execute(plan):
             u.check_queries(k, st)
         if cfg.get("rejected"):
             u.final_add_of_attached_object(len(plan["steps"]))
+        if cfg.get("coreCopy"):
+            # the largest subtrees: a copy of the whole core, a pickle of the core or of the reactor
+            how = cfg["coreCopy"]
+            src = o.r if how == "pickle-reactor" else o.r.core
+            cp = copy.deepcopy(src) if how == "deepcopy" else pickle.loads(pickle.dumps(src))
+            u.probe("copies_of_the_whole_core_" + how)
+            u.check_copy(len(plan["steps"]), how + " of the core", src, cp)
         shape = sorted((hd, u.parent[hd], tuple(u.kids[hd])) for hd in u.objs)
         for kk in set(kinds):
             u.probes["op_" + kk] = kinds.count(kk)
